@@ -897,7 +897,7 @@ fn fault_oracles(ops: &[String], trace: &[String]) -> Vec<(usize, String)> {
 }
 
 pub fn run(ops: &[String]) -> Vec<String> {
-	let trace = run_cases(ops, Some(Duration::from_millis(4000)), exec);
+	let trace = run_cases(ops, Some(Duration::from_secs(30)), exec);
 	let extra = fault_oracles(ops, &trace);
 	let trace = crate::suites::transport::insert_after_cases(trace, extra);
 	if std::env::var("KV_ORACLE_STATS").is_ok() {
@@ -1664,7 +1664,11 @@ fn procn(l: &String, run: &mut Option<Run>, info_state: &mut InfoState, ids: &Id
 		let b = len as f64 * dt;
 		// the buffer that contains real time d, counted from the beginning of this op
 		let want = (d / b).ceil() - 1.0;
-		let slack = 1.0 + 0.5e-9 * (count as f64 + 1000.0) / b + 1e-6;
+		// two buffers of legitimate lag: the countdown is consumed at the start of a buffer (the state steps to
+		// Resuming / the sound starts in the buffer AFTER the one in which the remaining time reaches zero when that
+		// happens exactly at a boundary) and a resume's fade parameter takes its first step one buffer later; both
+		// are constants, independent of the delay — a drift proportional to the delay is what this oracle is for
+		let slack = 2.0 + 0.5e-9 * (count as f64 + 1000.0) / b + 1e-6;
 		let total = count as f64 * b;
 		if first >= 0 {
 			if (first as f64 - want).abs() > slack {
